@@ -3,7 +3,9 @@
 R12.1 annotation key agreement: for every propensity type the keys its constructor requires are
 emitted by the writer (or reconstructed by create_reaction), every delay parameter key the model
 can hold is handled by the reader, the rule frequency key is written and read under the same
-name, with the same separators.
+name, with the same separators.  Decided by partial evaluation (templates.StrExec): the string the writer code builds for a sample
+reaction of each type (names as holes, and numbers; with and without delay; delayed general reaction) is handed to the reader code,
+which must return the sample; the same for add_rule -> import_sbml_rules and the rule frequency.
 R12.2 exhaustiveness: every propensity / delay / rule type the model accepts has a non-raising
 writer branch; every model-supplied value concatenated into an annotation is converted with str().
 R12.3 nothing dropped: the writer iterates over all parameters, species, reaction definitions and
